@@ -142,6 +142,9 @@ def run_bounds(pid, tier):
             perr = check_parse_positions(pl)
             for msg in perr:
                 res.violation(msg, {"detail": msg})
+            # ---- 4b. input directories with unusual names
+            for msg in check_special_directories(pl):
+                res.violation(msg, {"detail": msg})
     # ---- 5. multi-byte text next to output that cannot be pretty-printed (the error path quotes the line)
     ud = fresh_dir("run", f"bounds-{tier}-unicode")
     ucases = unicode_cases()
@@ -223,4 +226,59 @@ def check_parse_positions(pl):
             out.append(f"the parse error ({kind}) does not identify file, line and column (expected sub/bad.pyxis:{line}:<col>): {msg[:300]}")
         elif int(m.group(1)) != line:
             out.append(f"the parse error ({kind}) is reported at line {m.group(1)}, the offending token is on line {line}: {msg[:300]}")
+    return out
+
+
+def check_special_directories(pl):
+    """pyxis::build on input directories whose names contain glob metacharacters, spaces or dots, next to a sibling directory
+    that such a name would match as a pattern: an outcome other than Ok / Err is a violation, and so is a result that differs
+    from the same tree under a plain name (C12: unusual names never cause a panic)"""
+    import shutil
+    out = []
+    root = os.path.join(pl.dir, "specialdirs")
+    shutil.rmtree(root, ignore_errors=True)
+    tree = {"a.pyxis": "pub type A { x: u32 }\n", "sub/b.pyxis": "use a::A;\npub type B { a: A, y: u32 }\n"}
+
+    def put(d):
+        for rel, text in tree.items():
+            p_ = os.path.join(d, rel)
+            os.makedirs(os.path.dirname(p_), exist_ok=True)
+            open(p_, "w").write(text)
+
+    def run(ind, outd):
+        p = subprocess.run([PVH, "buildtree", "--in-dir", ind, "--out-dir", outd], stdout=subprocess.PIPE, stderr=subprocess.STDOUT,
+                           text=True, timeout=60)
+        return p.stdout.strip()
+
+    def listing(outd):
+        res_ = []
+        for dp, _, fs in os.walk(outd):
+            for f in fs:
+                fp = os.path.join(dp, f)
+                res_.append((os.path.relpath(fp, outd), sha(open(fp).read())))
+        return sorted(res_)
+
+    put(os.path.join(root, "plain", "in"))
+    ref = run(os.path.join(root, "plain", "in"), os.path.join(root, "plain", "out"))
+    ref_files = listing(os.path.join(root, "plain", "out"))
+    if not ref.startswith("outcome=ok"):
+        return [f"reference tree not built: {ref[:200]}"]
+    # each special name together with the sibling it would match if it were read as a glob pattern
+    for name, sibling in (("x_a[b]", "x_ab"), ("x_a?c", "x_abc"), ("x_*", "x_other"), ("x y", None), ("x.d", None), ("x{a,b}", "xa")):
+        d = os.path.join(root, name)
+        put(os.path.join(d, "in"))
+        if sibling:
+            sd = os.path.join(root, sibling, "in")
+            os.makedirs(sd, exist_ok=True)
+            open(os.path.join(sd, "intruder.pyxis"), "w").write("pub type Intruder { x: u8 }\n")
+        try:
+            got = run(os.path.join(d, "in"), os.path.join(d, "out"))
+        except subprocess.TimeoutExpired:
+            out.append(f"pyxis::build on input directory `{name}/in` did not finish in 60 s")
+            continue
+        if not got.startswith(("outcome=ok", "outcome=err")):
+            out.append(f"pyxis::build on input directory `{name}/in`: {got[:160]} instead of a result")
+        elif got.startswith("outcome=ok") and listing(os.path.join(d, "out")) != ref_files:
+            out.append(f"pyxis::build on input directory `{name}/in` gives {listing(os.path.join(d, 'out'))}, the same tree under a plain "
+                       f"name gives {ref_files}")
     return out
